@@ -365,7 +365,27 @@ def run(prog, chk, tier):
         cex = None
         try:
             grid_regs = [0, 0xFFFF, 0x00FF, 0xFF00, 0x1234, 0x8408, 0x6F91, 0xA5A5] + [(r_ * 0x0101) & 0xFFFF for r_ in range(0, 256, 5)]
-            for r_ in grid_regs:
+            # ... plus, for every byte, the registers whose correct successor is one of the values at which a non-affine operation (a modulus, a
+            # comparison, a clamp) can change its behaviour: 0, 1, 0xFFFF, 0x8000 and the integer constants of the update (with their neighbours).  The step is
+            # T(reg ^ byte) with T a bijection of the 16-bit registers, so the register with a given successor is T^-1(successor) ^ byte
+            from bfsa.terms import subterms as _subterms
+
+            t_of = [ref_step(r_, 0) for r_ in range(1 << 16)]
+            t_inv = {v_: k_ for k_, v_ in enumerate(t_of)}
+            targets = {0, 1, 0xFFFF, 0xFFFE, 0x8000, 0x7FFF}
+            for x_ in _subterms(unsnap(nxt)):
+                if is_const(x_) and isinstance(cval(x_), int) and not isinstance(cval(x_), bool) and 0 < cval(x_) <= (1 << 16) + 1:
+                    targets |= {(cval(x_) + d_) & 0xFFFF for d_ in (-1, 0, 1)}
+            special = [(t_inv[t_] ^ c_, c_) for t_ in sorted(targets) for c_ in range(256)]
+            for r_, c_ in special:
+                env = {regt.uid: r_}
+                if elem is not None:
+                    env[unsnap(elem).uid] = c_
+                got = eval_term(nxt, env)
+                if got != ref_step(r_, c_):
+                    cex = (r_, c_, got, ref_step(r_, c_))
+                    break
+            for r_ in ([] if cex else grid_regs):
                 for c_ in range(256):
                     env = {regt.uid: r_}
                     if elem is not None:
